@@ -290,11 +290,25 @@ def makeMachine() -> Callable[[_Core], _Client]:
         def prepare(
             protocol: _ReconnectingProtocolProxy,
         ) -> Deferred[_ReconnectingProtocolProxy]:
-            if s.prepareConnection is not None:
-                return maybeDeferred(s.prepareConnection, protocol).addCallback(
-                    lambda _: protocol
-                )
-            return succeed(protocol)
+            if s.prepareConnection is None:
+                return succeed(protocol)
+            # Until prepareConnection has accepted the connection it is not
+            # the machine's current connection: losing it is a failed attempt,
+            # and a rejected connection is closed.
+            notifyMachine = protocol._lostNotification
+            preparing = maybeDeferred(s.prepareConnection, protocol)
+            protocol._lostNotification = lambda reason: preparing.cancel()
+
+            def accepted(_: object) -> _ReconnectingProtocolProxy:
+                protocol._lostNotification = notifyMachine
+                return protocol
+
+            def rejected(f: Failure) -> Failure:
+                protocol._lostNotification = lambda reason: None
+                protocol._transport.loseConnection()
+                return f
+
+            return preparing.addCallbacks(accepted, rejected)
 
         # endpoint.connect() is actually generic on the type of the protocol,
         # but this is not expressible via zope.interface, so we have to cast
